@@ -19,6 +19,7 @@ func Gen(run *vlib.Run, seed uint64, tier string) {
 	genInfos(run, r.Fork("info"), tier)
 	genGdefs(run, r.Fork("gdef"), tier)
 	genFeatureLists(run, r.Fork("featurelist"), tier)
+	genScriptLists(run, r.Fork("scriptlist"), tier)
 }
 
 func pairsOf(x vlib.Sx) ([]pair, error) {
@@ -195,6 +196,27 @@ func RunCase(line string) (impl, fail, sig string, err error) {
 		}
 		impl, fail, _ = subEnc(d)
 		return impl, fail, "c08-subtable-" + d.kind, nil
+	case "sl-enc":
+		if len(items) != 2 {
+			return "", "", "", errors.New("sl-enc: want 1 argument")
+		}
+		es, err := slOf(items[1])
+		if err != nil {
+			return "", "", "", err
+		}
+		impl, fail, _ = slEnc(es)
+		return impl, fail, "c08-scriptlist", nil
+	case "sl-read":
+		if len(items) != 3 && len(items) != 4 {
+			return "", "", "", errors.New("sl-read: want 2 or 3 arguments")
+		}
+		data, e1 := vlib.AsBytes(items[1])
+		pos, e2 := vlib.AsInt(items[2])
+		if e1 != nil || e2 != nil {
+			return "", "", "", errors.New("sl-read: bad arguments")
+		}
+		impl, fail, _ = slRead(data, pos)
+		return impl, fail, "c08-scriptlist", nil
 	case "fl-enc":
 		if len(items) != 2 {
 			return "", "", "", errors.New("fl-enc: want 1 argument")
